@@ -47,13 +47,18 @@ class Hang(BaseException):
     pass
 
 
+_fired = [False]
+
+
 def _alarm(signum, frame):
+    _fired[0] = True
     raise Hang()
 
 
 @contextlib.contextmanager
 def watchdog(seconds):
     old = signal.signal(signal.SIGALRM, _alarm)
+    _fired[0] = False
     signal.setitimer(signal.ITIMER_REAL, seconds)
     try:
         yield
@@ -153,11 +158,18 @@ def asm(files, charset="bk", timeout=5.0, fs=None, handler="collect", listing=Fa
             # the interrupt can land between a push and its pop; later pushes/pops pair above the dead
             # entries, so results are unaffected (DESIGN C18) -- but keep the worker tidy anyway
         except RecursionError as ex:
-            res["outcome"] = "exception"
-            res["exc"] = "RecursionError"
+            res["outcome"] = "hang" if _fired[0] else "exception"
+            res["exc"] = None if _fired[0] else "RecursionError"
         except BaseException as ex:  # noqa  (internal error of the assembler = an outcome)
             if isinstance(ex, (KeyboardInterrupt, SystemExit, MachineryError)):
                 raise
+            if _fired[0]:
+                # the watchdog fired; while its exception unwound the stack, a context manager of the assembler
+                # (interrupted between a push and its pop) raised another one: still a hang
+                res["outcome"] = "hang"
+                res["reports"] = col.items
+                res["n_err"] = sum(1 for r in col.items if r[0] in ("error", "critical"))
+                return res
             res["outcome"] = "exception"
             tb = traceback.extract_tb(ex.__traceback__)
             where = ""
@@ -241,6 +253,7 @@ def pmap(fn, items, workers=None, chunksize=None, overall_timeout=3600):
     if not items:
         return []
     workers = workers or min(16, os.cpu_count() or 4)
+    mods()           # import the repository once in the parent: a tree that cannot be imported fails here, at once
     if len(items) < 4 or workers == 1:
         _init_worker_light()
         out = [_call((fn, it)) for it in items]
